@@ -16,6 +16,7 @@ from .common import call, rcell_from_lib, lib_cell_from_rcell, Cell, Address
 
 from pytoniq_core.proof.check_proof import check_proof, check_block_header_proof, check_account_proof, check_block_signatures
 from pytoniq_core.tl.block import BlockIdExt
+from pytoniq_core.boc.builder import Builder
 from pytoniq_core.tlb.config import ValidatorDescr, SigPubKey
 
 SIGN_MAGIC = bytes.fromhex('706e0bc5')      # ton.blockId
@@ -109,6 +110,10 @@ class SigWorld(HistoryWorld):
         br = random.Random(cfg['blk_seed'])
         st.blk = BlockIdExt(-1, -2 ** 63, br.getrandbits(31), bytes(br.getrandbits(8) for _ in range(32)), bytes(br.getrandbits(8) for _ in range(32)))
         st.other = BlockIdExt(-1, -2 ** 63, br.getrandbits(31), bytes(br.getrandbits(8) for _ in range(32)), bytes(br.getrandbits(8) for _ in range(32)))
+        if cfg['key_seed'] & 4 and st.weights and sum(st.weights) < 2 ** 62:
+            # the weight field is a uint64: one member in the upper half of its range (never seen on the main net, legal all the same)
+            st.weights[cfg['key_seed'] % len(st.weights)] += 2 ** 63
+            ctx.probe('member-weight-in-the-upper-half-of-uint64')
         # half the sets are in the validator_addr form (each member also has an ADNL address - another 256-bit name for the same
         # validator, which is NOT the id signatures are filed under)
         st.adnl = [hashlib.sha256(b'adnl' + bytes(k.verify_key)).digest() for k in st.keys]
@@ -116,6 +121,18 @@ class SigWorld(HistoryWorld):
             st.nodes = [ValidatorDescr('validator_addr', SigPubKey(bytes(k.verify_key)), w, a) for k, w, a in zip(st.keys, st.weights, st.adnl)]
         else:
             st.nodes = [ValidatorDescr('validator', SigPubKey(bytes(k.verify_key)), w) for k, w in zip(st.keys, st.weights)]
+        if cfg['key_seed'] & 2:
+            # the descriptors as a client gets them: parsed from the cells of a validator set (config parameters 32/34/36), not
+            # constructed by hand
+            def parsed(nd):
+                b = Builder().store_bytes(b'\x73' if nd.adnl_addr is not None else b'\x53').store_bytes(b"\x8e\x81'\x8a").store_bytes(nd.public_key.pubkey).store_uint(nd.weight, 64)
+                if nd.adnl_addr is not None:
+                    b.store_bytes(nd.adnl_addr)
+                return ValidatorDescr.deserialize(b.end_cell().begin_parse())
+            ok, nodes = call(lambda: [parsed(nd) for nd in st.nodes])
+            if ok:
+                st.nodes = nodes
+                ctx.probe('descriptors-parsed-from-cells')
         st.arrived = []
         st.phase = 0
         st.queue = []
